@@ -687,6 +687,12 @@ def parse_vc(path):
                     if not m2:
                         raise ExtractError(f'{path}: bad #abstract-stmt (need `sha=<hash> /regex/ = stmt`): {s2}')
                     fn.setdefault('abstract_stmts', []).append((m2.group(2), m2.group(3).strip(), m2.group(1)))
+                elif s2.startswith('#abstract-expr '):
+                    # R7e: `#abstract-expr sha=<hash> /regex/ = replacement-expression`
+                    m2 = re.match(r'#abstract-expr\s+sha=(\w+)\s+/(.+)/\s*=\s*(.+)$', s2)
+                    if not m2:
+                        raise ExtractError(f'{path}: bad #abstract-expr (need `sha=<hash> /regex/ = expr`): {s2}')
+                    fn.setdefault('abstract_exprs', []).append((m2.group(2), m2.group(3).strip(), m2.group(1)))
                 elif s2 == '#name-bytes':
                     # R8: byte-string literals of the body get a name (generated accessor with their content
                     # as postcondition), because the verifier knows nothing about a literal's bytes
@@ -843,6 +849,41 @@ def extract_fn(repo, spec, features):
         edits.add(T[a].start, T[e].start, ' ' + repl, 'rewrite', 'R7 abstract stmt')
         log.append({'step': 'R7', 'line': sf.line_of(T[a].start), 'abstracted_unverified': txt.replace(' ', '')[:400], 'replaced_by': repl})
         dropped.append((T[a].start, T[e].start))
+
+    # ---- R7e: expression abstraction.  A contiguous token range of the body whose compact text (tokens
+    # joined without spaces) is matched EXACTLY by the regex is replaced by a call to an assumed-contract
+    # function.  Pinned strictly by hash like R7; refused if the range contains tokens that can mutate.
+    for (rx, repl, want_sha) in spec.get('abstract_exprs', []):
+        live = [j for j in range(bo + 1, bc) if alive(T[j]) and T[j].kind != 'comment']
+        offs, acc = [], 0
+        for j in live:
+            offs.append(acc)
+            acc += len(T[j].text)
+        compact_txt = ''.join(T[j].text for j in live)
+        ms = [m for m in re.finditer(rx, compact_txt) if m.start() in offs and (m.end() in offs or m.end() == acc)]
+        if len(ms) != 1:
+            raise ExtractError(f'lost anchor: expression /{rx}/ in {spec["name"]} ({len(ms)} matches)')
+        m = ms[0]
+        a = live[offs.index(m.start())]
+        e_idx = offs.index(m.end()) if m.end() in offs else len(live)
+        e = live[e_idx - 1]
+        # balanced brackets inside the range
+        depth = 0
+        for j in range(a, e + 1):
+            if T[j].kind == 'punct' and T[j].text in '([{':
+                depth += 1
+            elif T[j].kind == 'punct' and T[j].text in ')]}':
+                depth -= 1
+                if depth < 0:
+                    raise ExtractError(f'/{rx}/ in {spec["name"]} is not a bracket-balanced expression')
+        if depth != 0:
+            raise ExtractError(f'/{rx}/ in {spec["name"]} is not a bracket-balanced expression')
+        have_sha = hashlib.sha256(m.group(0).encode()).hexdigest()[:16]
+        if have_sha != want_sha:
+            raise ExtractError(f'abstracted expression /{rx}/ in {spec["name"]} changed (sha {have_sha}, reviewed {want_sha})')
+        edits.add(T[a].start, T[e].end, repl, 'rewrite', 'R7e abstract expr')
+        log.append({'step': 'R7e', 'line': sf.line_of(T[a].start), 'abstracted_unverified': m.group(0)[:400], 'replaced_by': repl})
+        dropped.append((T[a].start, T[e].end))
 
     # ---- R8: byte-string literal naming.  `b"left"` -> `verif_bytes_6c656674()`, a generated accessor
     # `fn verif_bytes_6c656674() -> (r: &'static [u8]) ensures r@ =~= seq![108u8, ..] { b"left" }` whose body
